@@ -337,5 +337,15 @@ func AcceptBidToBuy1SatOrdinal2Dummies(ctx context.Context, vba *ValidateBid2DAr
 		return nil, err
 	}
 
+	// Validate saw the offer without the ordinal's unlocking script: check
+	// that the completed transaction still pays the expected fee
+	for i, u := range vba.PreviousUTXOs {
+		tx.Inputs[i].PreviousTxSatoshis = u.Satoshis
+	}
+	enough, err := tx.IsFeePaidEnough(vba.ExpectedFQ)
+	if err != nil || !enough {
+		return nil, bt.ErrInsufficientFees
+	}
+
 	return tx, nil
 }
